@@ -3,9 +3,12 @@
  builds, whole test-suite passes with the patch, demo fails with it and passes without it. Writes confirm.json."""
 import json, os, re, subprocess, sys, glob, shutil, time
 INBOX = "/verif/seeded/_inbox"
-WT = "/tmp/confirm/wt"
-PINNED = "9f1ceaf"
-ENV = dict(os.environ, CARGO_TARGET_DIR="/tmp/confirm/target", CARGO_NET_OFFLINE="true")
+HEADMODE = bool(os.environ.get("CONFIRM_HEAD"))
+WT = "/tmp/confirm/wt_head" if HEADMODE else "/tmp/confirm/wt"
+PINNED = subprocess.run(["git", "-C", "/repo", "rev-parse", "HEAD"], stdout=subprocess.PIPE, text=True).stdout.strip() if HEADMODE else "9f1ceaf"
+PATCH = "patch.head.diff" if HEADMODE else "patch.diff"
+OUT = "confirm.head.json" if HEADMODE else "confirm.json"
+ENV = dict(os.environ, CARGO_TARGET_DIR="/tmp/confirm/target_head" if HEADMODE else "/tmp/confirm/target", CARGO_NET_OFFLINE="true")
 J = os.environ.get("CONFIRM_JOBS", "8")
 
 def sh(cmd, timeout=3600):
@@ -18,6 +21,8 @@ def reset():
 def main():
     only = sys.argv[1:]
     os.makedirs("/tmp/confirm", exist_ok=True)
+    if os.path.isdir(WT) and HEADMODE:
+        subprocess.run("git checkout -q --detach %s" % PINNED, shell=True, cwd=WT)
     if not os.path.isdir(WT):
         subprocess.run(["git", "-C", "/repo", "worktree", "add", "--detach", WT, PINNED], check=True, stdout=subprocess.DEVNULL, stderr=subprocess.DEVNULL)
     items = sorted(glob.glob(INBOX + "/C*/[0-9]"))
@@ -26,7 +31,9 @@ def main():
         tag = "%s/%s" % (pid, k)
         if only and pid not in only and tag not in only:
             continue
-        out = os.path.join(d, "confirm.json")
+        out = os.path.join(d, OUT)
+        if HEADMODE and not os.path.exists(os.path.join(d, PATCH)):
+            continue
         if os.path.exists(out):
             continue
         res = dict(id=tag, t0=time.time())
@@ -43,7 +50,7 @@ def main():
                 json.dump(res, open(out, "w"), indent=1); continue
             name = os.path.basename(demo_path)[:-3]
             reset()
-            rc, o = sh("git apply %s" % os.path.join(d, "patch.diff"))
+            rc, o = sh("git apply %s" % os.path.join(d, PATCH))
             res["apply"] = rc == 0
             if rc != 0:
                 res["error"] = "patch does not apply: " + o[-300:]
@@ -59,7 +66,7 @@ def main():
             cmd = "cargo test -p %s --test %s --offline -j %s 2>&1 | tail -15" % (crate, name, J)
             rc, o = sh("cargo test -p %s --test %s --offline -j %s > /tmp/confirm/demo.out 2>&1; echo RC=$?; tail -12 /tmp/confirm/demo.out" % (crate, name, J))
             res["demo_with_patch_rc"] = int(re.search(r"RC=(\d+)", o).group(1)); res["demo_with_patch_tail"] = o[-600:]
-            rc, o2 = sh("git apply -R %s" % os.path.join(d, "patch.diff"))
+            rc, o2 = sh("git apply -R %s" % os.path.join(d, PATCH))
             rc, o = sh("cargo test -p %s --test %s --offline -j %s > /tmp/confirm/demo.out 2>&1; echo RC=$?; tail -5 /tmp/confirm/demo.out" % (crate, name, J))
             res["demo_without_patch_rc"] = int(re.search(r"RC=(\d+)", o).group(1))
             res["confirmed"] = bool(res["build_ok"] and res["suite_failed"] == 0 and res["suite_passed"] > 2000
